@@ -310,9 +310,10 @@ def run_ops(ops, observe_env=False, tag=""):
     return out
 
 
-def run_fresh(ops, hashseed="0", observe_env=False, pyflags=()):
+def run_fresh(ops, hashseed="0", observe_env=False, pyflags=(), env_extra=None):
     """the same operations in a fresh interpreter process (optionally started with interpreter flags such as -O)."""
     e = dict(os.environ)
+    e.update(env_extra or {})
     e["PYTHONHASHSEED"] = str(hashseed)
     e["PYTHONPATH"] = os.path.join(vlib.REPO, "src")
     p = subprocess.run([sys.executable] + list(pyflags) + [os.path.abspath(__file__), "1" if observe_env else "0"], input=json.dumps(ops), text=True,
@@ -412,6 +413,15 @@ if __name__ == "__main__" and len(sys.argv) > 1 and sys.argv[1] == "threads":
     sys.exit(0)
 
 if __name__ == "__main__":
+    if os.environ.get("VERIF_IMPORT_UNDER_TMP_STDOUT"):
+        # the library is imported for the first time while sys.stdout is a temporary stream (a capture buffer, a notebook cell)
+        # that is closed afterwards; later calls run with the ordinary stdout
+        import contextlib
+        _buf = io.StringIO()
+        with contextlib.redirect_stdout(_buf), contextlib.redirect_stderr(_buf):
+            vlib.use_repo()
+            import cm_colors.core.visualiser, cm_colors.core.cm_colors, cm_colors.core.colors      # noqa
+        _buf.close()
     ops = json.loads(sys.stdin.read())
     d = tempfile.mkdtemp(prefix="verif_fresh_")
     EnvWatch.root = d
